@@ -1406,6 +1406,144 @@ class D2PropCounts(D2Space):
         return out
 
 
+def affine_of(op):
+    """-> (point map, |magnification|) of one transformation op, computed here (exact for quarter turns)."""
+    kind = op[0]
+    if kind == "none":
+        return (lambda p: p), 1.0
+    if kind == "scale":
+        m, (cx, cy) = op[1], op[2]
+        return (lambda p: (cx + (p[0] - cx) * m, cy + (p[1] - cy) * m)), abs(m)
+    if kind == "mirror":
+        (x0, y0), (x1, y1) = op[1], op[2]
+        dx, dy = x1 - x0, y1 - y0
+        n2 = dx * dx + dy * dy
+
+        def mir(p):
+            t = ((p[0] - x0) * dx + (p[1] - y0) * dy) / n2
+            fx, fy = x0 + t * dx, y0 + t * dy
+            return (2 * fx - p[0], 2 * fy - p[1])
+        return mir, 1.0
+
+    def cs(a):
+        q = a / (math.pi / 2)
+        if abs(q - round(q)) < 1e-12:
+            return [(1, 0), (0, 1), (-1, 0), (0, -1)][int(round(q)) % 4]
+        return math.cos(a), math.sin(a)
+    if kind == "rotate":
+        (c, s_), (cx, cy) = cs(op[1]), op[2]
+        return (lambda p: (cx + (p[0] - cx) * c - (p[1] - cy) * s_, cy + (p[0] - cx) * s_ + (p[1] - cy) * c)), 1.0
+    if kind == "transform":
+        m, xr, (c, s_), (ox, oy) = op[1], op[2], cs(op[3]), op[4]
+
+        def tr(p):
+            x, y = p[0] * m, p[1] * m * (-1 if xr else 1)
+            return (x * c - y * s_ + ox, x * s_ + y * c + oy)
+        return tr, abs(m)
+    raise ValueError(kind)
+
+
+def xf_cmd(op):
+    k = op[0]
+    if k == "scale":
+        return "xf scale %s %s,%s" % (fnum(op[1]), fnum(op[2][0]), fnum(op[2][1]))
+    if k == "mirror":
+        return "xf mirror %s,%s %s,%s" % (fnum(op[1][0]), fnum(op[1][1]), fnum(op[2][0]), fnum(op[2][1]))
+    if k == "rotate":
+        return "xf rotate %s %s,%s" % (fnum(op[1]), fnum(op[2][0]), fnum(op[2][1]))
+    if k == "transform":
+        return "xf transform %s %d %s %s,%s" % (fnum(op[1]), int(op[2]), fnum(op[3]), fnum(op[4][0]), fnum(op[4][1]))
+    return None
+
+
+XF_OPS = [("none",), ("scale", 2.0, (1.0, 2.0)), ("scale", 0.5, (1.0, 2.0)), ("scale", 3.0, (0.0, 0.0)), ("mirror", (1.0, 0.0), (1.0, 5.0)), ("mirror", (0.0, 0.0), (2.0, 2.0)),
+          ("rotate", 0.5 * math.pi, (1.0, 2.0)), ("transform", 2.0, False, 0.5 * math.pi, (3.0, -1.0)), ("transform", 2.0, True, 0.5 * math.pi, (3.0, -1.0)),
+          ("transform", 0.5, True, 0.0, (0.0, 0.0)), ("transform", 1.0, True, math.pi, (-2.0, 4.0))]
+
+
+class D2Transforms(D2Space):
+    """Elements with a transformation history before the save; the saved library is this harness's own model: construction
+    parameters mapped through the affine map (centre line = spine shifted by the offset to the left of the direction of travel;
+    half width x |m| only with scale_width; extensions x |m|)."""
+    name = "d2.transforms"
+    LINES = {"h2": [(0.0, 0.0), (5.0, 0.0)], "diag": [(0.0, 0.0), (3.0, 4.0)], "L": [(0.0, 0.0), (6.0, 0.0), (6.0, 4.0)]}
+    ELCFG = {"1el": [(0.1, 0.0)], "1el.off": [(0.1, 0.5)], "2el": [(0.1, 0.5), (0.2, -0.5)]}
+    ENDS = {"flush": None, "half": None, "ext": (0.1, 0.3)}
+
+    def __init__(self):
+        self.items = []
+        for kind in ("fpath", "rpath"):
+            for ln, pts in self.LINES.items():
+                for cn, cfg in self.ELCFG.items():
+                    if ln == "L" and cn != "1el":
+                        continue
+                    for en in self.ENDS:
+                        for sw in (1, 0):
+                            self.items.append((kind, ln, cn, en, sw))
+        self.items += [("poly",), ("label",), ("ref",)]
+
+    def ngroups(self, tier):
+        return len(self.items)
+
+    def describe(self, tier):
+        return ("simple FlexPaths and simple RobustPaths (straight, diagonal, L-shaped centre lines; 1 element, 1 element with offset, 2 elements with opposite offsets; "
+                "Flush/HalfWidth/Extended ends; scale_width true/false) and a polygon, a label and a reference, each after one of %d transformation histories (none, "
+                "scale 2 / 0.5 / 3, two mirrors, rotate pi/2, transform with and without x-reflection)%s x 2 option sets") % (
+                    len(XF_OPS), " and every ordered pair of them" if tier == "thorough" else "")
+
+    def cases(self, g, tier):
+        it = self.items[g]
+        out = []
+        seqs = [[op] for op in XF_OPS]
+        if tier == "thorough":
+            seqs += [[a, b2] for a in XF_OPS[1:] for b2 in XF_OPS[1:]]
+        for seq in seqs:
+            if it[0] in ("label", "ref") and any(op[0] not in ("none", "transform") for op in seq):
+                continue
+            xcmds = [x for x in (xf_cmd(op) for op in seq) if x]
+            hints = {}
+            if it[0] in ("fpath", "rpath"):
+                kind, ln, cn, en, sw = it
+                pts, cfg, ext = self.LINES[ln], self.ELCFG[cn], self.ENDS[en]
+                eu, ev = ext or (0.0, 0.0)
+                elc = " ".join("%d %d %s %s %s %s %s" % (1 + k, 2, fnum(hw if kind == "fpath" else 2 * hw), fnum(off), en, fnum(eu), fnum(ev)) for k, (hw, off) in enumerate(cfg))
+                ecmd = "%s 1 %d %d %s %d %s" % (kind, sw, len(pts), " ".join("%s,%s" % (fnum(x), fnum(y)) for x, y in pts), len(cfg), elc)
+                mag = 1.0
+                maps = []
+                for op in seq:
+                    f, m = affine_of(op)
+                    maps.append(f)
+                    mag *= m
+                exp = []
+                for k, (hw, off) in enumerate(cfg):
+                    cl = list(pts)
+                    if off:
+                        (x0, y0), (x1, y1) = pts
+                        L = math.hypot(x1 - x0, y1 - y0)
+                        nx, ny = -(y1 - y0) / L, (x1 - x0) / L
+                        cl = [(x + off * nx, y + off * ny) for x, y in pts]
+                    for f in maps:
+                        cl = [f(p) for p in cl]
+                    hw2 = hw * mag if sw else hw
+                    R = lambda v: rha(v * 1000.0)
+                    e2 = {"flush": (0, 0), "half": (R(hw2), R(hw2)), "ext": (R(eu * mag), R(ev * mag))}[en]
+                    exp.append({"layer": 1 + k, "datatype": 2, "hw": R(hw2), "ext": e2, "points": [(R(x), R(y)) for x, y in cl], "src": "robustpath" if kind == "rpath" else "flexpath",
+                                "offsets": [(0, 0)], "props": []})
+                hints = {"expect_paths": {"A": exp}}
+                label = {"element": "%s.%s.%s.%s" % (kind, ln, cn, en), "scale_width": sw}
+            elif it[0] == "poly":
+                ecmd, label = "poly 1 2 0,0 4,0 4,2 1,3", {"element": "polygon"}
+            elif it[0] == "label":
+                ecmd, label = "label 3 4 1,-2 6869", {"element": "label"}
+            else:
+                ecmd, label = "ref B 4,-3 0 1 0", {"element": "reference"}
+            label["history"] = " ; ".join(xcmds) or "none"
+            cmds = ["cell A", ecmd] + xcmds + ["cell B", "poly 0 0 0,0 0.004,0 0.004,0.002"]
+            for lvl, fl in ((0, 0), (6, 0x3F)):
+                out.append({"cmds": cmds, "level": lvl, "flags": fl, "tol": 0, "hints": hints, "label": dict(label, level=lvl, flags=fl)})
+        return out
+
+
 class D2History(D2Space):
     """Save histories on ONE Library object: every written file must be true about itself."""
     name = "d2.history"
@@ -1461,7 +1599,7 @@ class D2History(D2Space):
         return out
 
 
-D2_SPACES = [D2Shapes, D2Elements, D2PropCounts, D2History, D2Options]
+D2_SPACES = [D2Shapes, D2Elements, D2PropCounts, D2Transforms, D2History, D2Options]
 
 
 # ---------------------------------------------------------------------------- direction 2: model of the saved library
@@ -1543,7 +1681,10 @@ def d2_model(src, hints):
         for p in c["polygons"]:
             els["polygons"].append({"layer": p["tag"][0], "datatype": p["tag"][1], "points": [(R(x), R(y)) for x, y in p["points"]],
                                     "offsets": sorted(dump_rep_offsets(p["repetition"], s)), "props": props_from_dump(p["properties"])})
-        for fp in c["flexpaths"]:
+        override = hints.get("expect_paths", {}).get(c["name"])
+        if override is not None:
+            els["paths"] = [dict(p) for p in override]
+        for fp in ([] if override is not None else c["flexpaths"]):
             if not fp["simple_path"]:
                 raise ValueError("non-simple flexpath in the C04 family")
             spine = dedup_consecutive([(R(x), R(y)) for x, y in fp["spine"]])
@@ -1554,7 +1695,7 @@ def d2_model(src, hints):
                 ext = {"flush": (0, 0), "half-width": (hw, hw), "extended": (R(e["end_extensions"][0]), R(e["end_extensions"][1]))}[e["end"]]
                 els["paths"].append({"layer": e["tag"][0], "datatype": e["tag"][1], "hw": hw, "ext": ext, "points": spine, "src": "flexpath",
                                      "offsets": sorted(dump_rep_offsets(fp["repetition"], s)), "props": props_from_dump(fp["properties"])})
-        for rp in c["robustpaths"]:
+        for rp in ([] if override is not None else c["robustpaths"]):
             pts = rp_hint.pop(0)
             for e in rp["elements"]:
                 hw = R(0.5 * e["end_width"])
